@@ -22,20 +22,6 @@ func universe() *vlib.Universe {
 	return vlib.UniPlainNA
 }
 
-// uniLoop: the closed-loop cases also hold one leaf / leaf-list of every built-in type, so that every value is
-// written to the running store twice - by the transaction and by the sync of the device's report - and compared
-var uniLoop *vlib.Universe
-
-func init() {
-	ts := append([]vlib.Tmpl{}, vlib.UniPlainNA.Tmpls...)
-	for _, p := range []string{"types/i8", "types/i64", "types/u8", "types/u64", "types/d1", "types/d3", "types/d18", "types/str", "types/bool", "types/enu", "types/bits", "types/bin",
-		"types/emp", "types/idr", "types/uni", "types/ll-i8", "types/ll-u64", "types/ll-d3", "types/ll-str", "types/ll-bool", "types/ll-enu", "types/ll-idr", "types/ll-uni"} {
-		ts = append(ts, vlib.T(p))
-	}
-	uniLoop = &vlib.Universe{Name: "plain+types", Tmpls: ts}
-	vlib.Universes[uniLoop.Name] = uniLoop
-}
-
 var prop = vlib.Prop[*vlib.HistCase]{
 	ID: "C01",
 	Rule: "case = initial running config + history of 1..10 multi-intent TransactionSets over 4 owners with pairwise distinct priorities (plain subtree: 1..3-key lists, leaf-lists, presence containers, two namespaces; typed/string/JSON input forms); " +
@@ -51,7 +37,7 @@ var prop = vlib.Prop[*vlib.HistCase]{
 			return vlib.GenNCLoop(t)
 		}
 		if os.Getenv("VERIF_C01_LOOP") != "" {
-			c = vlib.GenHistCase(t, vlib.HistGenOpts{Universe: uniLoop, MinSteps: 1, MaxSteps: 8, WithInit: true, AllowOrphan: true})
+			c = vlib.GenHistCase(t, vlib.HistGenOpts{Universe: vlib.UniLoop, MinSteps: 1, MaxSteps: 8, WithInit: true, AllowOrphan: true})
 			c.GNMI = rapid.SampledFrom([]string{"proto", "json", "json_ietf"}).Draw(t, "gnmi-encoding-forced")
 			c.Loop = true
 		}
@@ -115,7 +101,9 @@ func Exec(c *vlib.HistCase) (nontrivial bool, labels []string, fail *vlib.Failur
 			f = lp.CheckStore(h, "initial sync")
 		}
 		if f != nil {
-			return nontrivial, keys(lab), f
+			// "the running store mirrors the device" is C13's statement (judged there in the same loop)
+			vlib.GetStats("C01").Discard("closed-loop-precondition:" + f.Sig)
+			return false, []string{"discard"}, nil
 		}
 	}
 	for i, st := range c.Steps {
@@ -146,7 +134,8 @@ func Exec(c *vlib.HistCase) (nontrivial bool, labels []string, fail *vlib.Failur
 		}
 		if lp != nil {
 			if f := lp.CheckStore(h, fmt.Sprintf("step %d (%s)", i, describe(res))); f != nil {
-				return nontrivial, keys(lab), f
+				vlib.GetStats("C01").Discard("closed-loop-precondition:" + f.Sig)
+				return false, []string{"discard"}, nil
 			}
 		}
 	}
